@@ -124,6 +124,11 @@ CHECKS = {
         "units": [unit("c06-root", "root", ["zz_verif_c06_test.go", "zz_verif_c11_test.go"], "^TestVerifC06", shards={"quick": 16, "thorough": 16})],
         "assumptions": ["with a keyshare contribution the commitment proof is completed by the keyshare server; that exchange is C14's"],
     },
+    "C14": {
+        "level": "fault_enumeration",
+        "units": [unit("c14-root", "root", ["zz_verif_c14_test.go"], "^TestVerifC14", shards={"quick": 16, "thorough": 16})],
+        "assumptions": ["keyshare protocol is exercised on 1024- and 2048-bit keys (toy parameter sets do not satisfy the size assumptions NewKeyshareCommitments makes)"],
+    },
     "_FIX": {
         "level": "other",
         "units": [unit("genfix", "root", [], "^TestVerifGenFixtures$", env={"VERIF_GENFIX": "1"}, timeout=1800)],
